@@ -151,12 +151,13 @@ def classBits (f : Nat) : Nat := f / 64 % 4
 
 /-! ## wire decoder: `parse_message` attribute loop + `Attribute::decode` (four-octet-AS session) -/
 
-/-- the segment walk of `Attribute::decode` for AS_PATH: type 1..4, count byte, count*4 bytes present -/
+/-- the segment walk of `Attribute::decode` for AS_PATH: type 1..4, a non-zero count byte (RFC 7606
+    §7.2, C04 repair), count*4 bytes present -/
 def segsOk : Bytes → Bool
   | [] => true
   | [_] => false
   | t :: l :: rest =>
-      if 1 ≤ t ∧ t ≤ 4 ∧ l * 4 ≤ rest.length then segsOk (rest.drop (l * 4)) else false
+      if 1 ≤ t ∧ t ≤ 4 ∧ l ≠ 0 ∧ l * 4 ≤ rest.length then segsOk (rest.drop (l * 4)) else false
 termination_by bs => bs.length
 decreasing_by simp only [List.length_drop, List.length_cons]; omega
 
@@ -500,8 +501,8 @@ def typedCode (code : Nat) : Bool :=
   code = 1 ∨ code = 2 ∨ code = 3 ∨ code = 4 ∨ code = 5 ∨ code = 6 ∨ code = 7 ∨ code = 8 ∨ code = 9 ∨
   code = 10 ∨ code = 16 ∨ code = 32 ∨ code = 23 ∨ code = 29 ∨ code = 17 ∨ code = 18
 
-/-- `attr_from_api` -/
-def fromApi (fx : Fixes) : ApiAttr → Out Attribute
+/-- `attr_from_api` without the exactness / size checks (see `fromApi`) -/
+def fromApi0 (fx : Fixes) : ApiAttr → Out Attribute
   | .missing => .err
   | .other => .err
   | .unknown flags ty value =>
@@ -555,6 +556,42 @@ def fromApi (fx : Fixes) : ApiAttr → Out Attribute
       match l.mapM writeExtcom with
       | none => .err
       | some cs => okOrErr (newWithBin 16 cs.flatten)
+
+/-- the largest attribute value any UPDATE can carry: 65535 (RFC 8654) - 19 header - 2 - 2 length
+    fields - 4 attribute header -/
+def maxAttrValue : Nat := 65508
+
+def Attribute.valueLen (a : Attribute) : Nat :=
+  match a.data with
+  | .val _ => 4
+  | .bin b => b.length
+  | .raw b => b.length
+
+/-- an extended community given exactly: nothing `write_extcom` would silently alter -/
+def ExtCom.strict : ExtCom → Bool
+  | .unknown ty v => (match v with | b :: _ => ty = b | [] => true)
+  | .trafficRemark d => d ≤ 63
+  | _ => true
+
+/-- an attribute message given exactly: every field is stored as sent (third-wave repair: what would be
+    altered silently is refused).  Raw messages of recognised codes may leave `flags` 0 (unset). -/
+def ApiAttr.strict : ApiAttr → Bool
+  | .unknown f t _ =>
+      (match canonicalFlags (t % 256) with
+       | some c => f = 0 || f = c
+       | none => true)
+  | .asPath segs => segs.all fun s => s.2.length ≠ 0
+  | .extCommunities l => l.all ExtCom.strict
+  | _ => true
+
+/-- `attr_from_api`: exactness checks, conversion, then the size check -/
+def fromApi (fx : Fixes) (x : ApiAttr) : Out Attribute :=
+  if fx.validate ∧ x.strict = false then .err
+  else
+    match fromApi0 fx x with
+    | .ok a => if fx.validate ∧ a.valueLen > maxAttrValue then .err else .ok a
+    | .err => .err
+    | .panic => .panic
 
 /-! ## consumers of stored attributes -/
 
@@ -698,34 +735,51 @@ def stripConfed : Bytes → Out Bytes
 termination_by bs => bs.length
 decreasing_by all_goals (simp only [List.length_drop, List.length_cons]; omega)
 
-/-- what `do_encode` does with one attribute on a two-octet-AS session (bytes are not compared,
-    only whether it completes) -/
-def encode2Use (a : Attribute) : Out Unit :=
+/-- what `do_encode` writes for one attribute on a two-octet-AS session -/
+def encode2 (a : Attribute) : Out Bytes :=
   if a.code = 2 then do
     let b ← unwrapO a.binary
     let d ← downgrade2 b
-    let _ ← encodeAttr { a with data := .bin d, flags := 0x40 }
+    let e ← encodeAttr { a with data := .bin d }            -- `a.with_bin(..)`: code and flags kept
     let w ← hasWide b
     if w then
       let s ← stripConfed b
-      let _ ← encodeAttr { code := 17, flags := 0xC0, data := .bin s }
-      pure ()
-    else pure ()
+      let e4 ← encodeAttr { code := 17, flags := 0xC0, data := .bin s }
+      pure (e ++ e4)
+    else pure e
   else if a.code = 7 then do
     let b ← unwrapO a.binary
-    if b.length < 8 then .panic else pure ()         -- `buf[..4]`, `buf[4..8]`
-  else do
-    let _ ← encodeAttr a
-    pure ()
+    if b.length < 8 then .panic                              -- `buf[..4]`, `buf[4..8]`
+    else
+      let asn := ofBe (b.take 4)
+      let e ← encodeAttr { a with data := .bin (beN 2 (if asn > 65535 then 23456 else asn) ++ (b.drop 4).take 4) }
+      if asn > 65535 then do
+        let e4 ← encodeAttr { code := 18, flags := 0xC0, data := .bin b }
+        pure (e ++ e4)
+      else pure e
+  else encodeAttr a
 
-/-- run `f` on every element, stop at the first failure (`for a in attr { ... }`) -/
-def runAll {α β} (f : α → Out β) : List α → Out Unit
-  | [] => .ok ()
+/-- run `f` on every element, stop at the first failure (`for a in attr { ... }`), total octets written -/
+def sumAll {α} (f : α → Out Bytes) : List α → Out Nat
+  | [] => .ok 0
   | x :: xs =>
       match f x with
-      | .ok _ => runAll f xs
+      | .ok b =>
+          (match sumAll f xs with
+           | .ok n => .ok (b.length + n)
+           | .err => .err
+           | .panic => .panic)
       | .err => .err
       | .panic => .panic
+
+/-- `PeerCodec::encode_to` of one IPv4-unicast Reach (10.0.0.0/8, IPv4 next hop) carrying `as` on a session
+    without extended messages: header 19 + two length fields 4 + attributes + NEXT_HOP 7 + NLRI 2; beyond
+    4096 octets the encoder returns `Err` (C04 repair: the sum is a `usize`, nothing is truncated) -/
+def msgUse (f : Attribute → Out Bytes) (as : List Attribute) : Out Unit :=
+  match sumAll f as with
+  | .ok n => if 19 + 4 + n + 7 + 2 > 4096 then .err else .ok ()
+  | .err => .err
+  | .panic => .panic
 
 /-! ## the path a converted attribute is stored in (mirrored by the harness) -/
 
@@ -759,8 +813,8 @@ def useOf (a : Attribute) : Use :=
     enc := encodeAttr a
     cmp := cmpUse as
     pol := polUse as
-    msg4 := runAll encodeAttr as
-    msg2 := runAll encode2Use as }
+    msg4 := msgUse encodeAttr as
+    msg2 := msgUse encode2 as }
 
 /-! ## NLRI (bgp.rs `Ipv4Net`/`Ipv6Net`, labeled.rs, vpn.rs, mpls.rs, rd.rs) -/
 
@@ -832,7 +886,7 @@ def nlriToApi : Nlri → ApiNlri
   | .vpn6 ls rd a m => .vpn ls (some (rdToApi rd)) m (.ip6 a)
 
 /-- `net_from_api`; `checked` = the labeled/VPN arms validate prefix length and label stack -/
-def netFromApi (fx : Fixes) : ApiNlri → Out Nlri
+def netFromApi0 (fx : Fixes) : ApiNlri → Out Nlri
   | .missing => .err
   | .other => .err
   | .prefix s len =>
@@ -868,6 +922,23 @@ def netFromApi (fx : Fixes) : ApiNlri → Out Nlri
                   if fx.validate ∧ (len > 128 ∨ ls.length = 0 ∨ ls.length * 24 + 64 + len > 255) then .err
                   else .ok (.vpn6 ls rd' a (len % 256))
 
+/-- no octet of a `w`-octet address beyond the `ceil(m/8)` significant ones is set (what the wire can carry) -/
+def hostBitsClear (w a m : Nat) : Bool := a % 2 ^ ((w - (m + 7) / 8) * 8) = 0
+
+/-- a prefix message given exactly: 20-bit labels, no host bits -/
+def ApiNlri.strict : ApiNlri → Bool
+  | .prefix (.ip4 a) m => hostBitsClear 4 a m
+  | .prefix (.ip6 a) m => hostBitsClear 16 a m
+  | .labeled ls m (.ip4 a) => ls.all (· < 1048576) && hostBitsClear 4 a m
+  | .labeled ls m (.ip6 a) => ls.all (· < 1048576) && hostBitsClear 16 a m
+  | .vpn ls _ m (.ip4 a) => ls.all (· < 1048576) && hostBitsClear 4 a m
+  | .vpn ls _ m (.ip6 a) => ls.all (· < 1048576) && hostBitsClear 16 a m
+  | _ => true
+
+/-- `net_from_api` -/
+def netFromApi (fx : Fixes) (x : ApiNlri) : Out Nlri :=
+  if fx.validate ∧ x.strict = false then .err else netFromApi0 fx x
+
 /-! ### NLRI wire codec -/
 
 def ceil8 (bits : Nat) : Nat := (bits + 7) / 8
@@ -890,31 +961,23 @@ def encRd : Rd → Bytes
   | .ip4 a b => beN 2 1 ++ beN 4 a ++ beN 2 b
   | .fourOctet a b => beN 2 2 ++ beN 4 a ++ beN 2 b
 
-/-- `u8 + u8` in a debug build -/
-def addU8 (a b : Nat) : Out Nat := if a + b > 255 then .panic else .ok (a + b)
-
-/-- `Nlri::encode` -/
+/-- `Nlri::encode` behind `encode_to_bytes`: a labeled / VPN prefix whose bit count exceeds the one-octet
+    length field is refused (`Err`, nothing written: C04 repair); the prefix octets are indexed -/
 def encodeNlri : Nlri → Out Bytes
   | .v4 a m => do let p ← encPrefix 4 a m; pure ([m] ++ p)
   | .v6 a m => do let p ← encPrefix 16 a m; pure ([m] ++ p)
-  | .lv4 ls a m => do
-      let t ← addU8 (ls.length * 24 % 256) m
-      let p ← encPrefix 4 a m
-      pure ([t] ++ encLabels ls ++ p)
-  | .lv6 ls a m => do
-      let t ← addU8 (ls.length * 24 % 256) m
-      let p ← encPrefix 16 a m
-      pure ([t] ++ encLabels ls ++ p)
-  | .vpn4 ls rd a m => do
-      let t0 ← addU8 (ls.length * 24 % 256) 64
-      let t ← addU8 t0 m
-      let p ← encPrefix 4 a m
-      pure ([t] ++ encLabels ls ++ encRd rd ++ p)
-  | .vpn6 ls rd a m => do
-      let t0 ← addU8 (ls.length * 24 % 256) 64
-      let t ← addU8 t0 m
-      let p ← encPrefix 16 a m
-      pure ([t] ++ encLabels ls ++ encRd rd ++ p)
+  | .lv4 ls a m =>
+      if ls.length * 24 + m > 255 then .ok []
+      else do let p ← encPrefix 4 a m; pure ([ls.length * 24 + m] ++ encLabels ls ++ p)
+  | .lv6 ls a m =>
+      if ls.length * 24 + m > 255 then .ok []
+      else do let p ← encPrefix 16 a m; pure ([ls.length * 24 + m] ++ encLabels ls ++ p)
+  | .vpn4 ls rd a m =>
+      if ls.length * 24 + 64 + m > 255 then .ok []
+      else do let p ← encPrefix 4 a m; pure ([ls.length * 24 + 64 + m] ++ encLabels ls ++ encRd rd ++ p)
+  | .vpn6 ls rd a m =>
+      if ls.length * 24 + 64 + m > 255 then .ok []
+      else do let p ← encPrefix 16 a m; pure ([ls.length * 24 + 64 + m] ++ encLabels ls ++ encRd rd ++ p)
 
 /-- `MplsLabelStack::decode`: labels until the bottom-of-stack bit; `none` = read error -/
 def decLabels : Bytes → Option (List Nat × Bytes)
@@ -970,7 +1033,7 @@ def decodeLabeled (w : Nat) (bs : Bytes) : Out (List Nat × Nat × Nat × Bytes)
         match decLabels rest with
         | none => .err
         | some (ls, rest') =>
-            let lb := ls.length * 24 % 256
+            let lb := ls.length * 24          -- a `usize` since the C04 repair: no truncation
             if total < lb then .err
             else
               match decPrefix w (total - lb) rest' with
@@ -1022,6 +1085,60 @@ def decodeList (f : Fam) : Nat → Bytes → Out (List Nlri)
       | .err => .err
       | .panic => .panic
 
+/-! ## `GrpcService::local_path` + `add_path` + `list_path` (daemon/src/event/grpc.rs) -/
+
+/-- `Nexthop::from_bytes(b).is_some()` -/
+def nexthopOk (b : Bytes) : Bool := b.length = 4 ∨ b.length = 16 ∨ b.length = 32
+
+def emptyAsPath : Attribute := { code := 2, flags := 0x40, data := .bin [] }
+
+/-- the attribute loop of `local_path` on already converted attributes: NEXT_HOP and MP_REACH give the next
+    hop and are not stored (a raw MP_REACH whose next hop cannot be read refuses the request), ORIGINATOR_ID /
+    CLUSTER_LIST / MP_UNREACH are dropped, everything else is kept in order -/
+def keepAttrs : List Attribute → Out (List Attribute)
+  | [] => .ok []
+  | a :: rest =>
+      if a.code = 14 then
+        match a.binary with
+        | none => .err
+        | some b =>
+            let nh : Bool := match b with
+              | _ :: _ :: _ :: len :: tl => !(b.length < 5 + len) && nexthopOk (tl.take len)
+              | _ => false
+            if nh then keepAttrs rest else .err          -- "malformed MP_REACH nexthop" (no flowspec family here)
+      else if a.code = 3 ∨ a.code = 9 ∨ a.code = 10 ∨ a.code = 15 then keepAttrs rest
+      else (keepAttrs rest).map (a :: ·)
+
+def convertAll (fx : Fixes) : List ApiAttr → Out (List Attribute)
+  | [] => .ok []
+  | x :: rest =>
+      match fromApi fx x with
+      | .ok a => (convertAll fx rest).map (a :: ·)
+      | .err => .err
+      | .panic => .panic
+
+/-- `local_path`: the attribute vector that `add_path` inserts -/
+def localPath (fx : Fixes) (xs : List ApiAttr) : Out (List Attribute) :=
+  match convertAll fx xs with
+  | .ok as =>
+      (match keepAttrs as with
+       | .ok kept =>
+           let k1 := if kept.any (·.code = 1) then kept else kept ++ [originIgp]
+           .ok (if k1.any (·.code = 2) then k1 else k1 ++ [emptyAsPath])
+       | .err => .err
+       | .panic => .panic)
+  | .err => .err
+  | .panic => .panic
+
+/-- `destination_to_api`: `p.attr.iter().map(attr_to_api)` -/
+def listAttrs (fx : Fixes) : List Attribute → Out (List ApiAttr)
+  | [] => .ok []
+  | a :: rest =>
+      match toApi fx a with
+      | .ok y => (listAttrs fx rest).map (y :: ·)
+      | .err => .err
+      | .panic => .panic
+
 /-! ## cases and observations -/
 
 inductive Case where
@@ -1029,6 +1146,7 @@ inductive Case where
   | attrApi (x : ApiAttr)
   | nlriWire (f : Fam) (bs : Bytes)
   | nlriApi (x : ApiNlri)
+  | grpc (x : ApiNlri) (attrs : List ApiAttr)    -- AddPath then ListPath through the real `GrpcService`
   | explore (kind : String)        -- kinds outside the model: judged on the real observation only
   deriving Repr
 
@@ -1045,6 +1163,8 @@ structure NlriObs where
   api : ApiNlri
   back : Out Nlri
   enc : Out Bytes
+  msg : Out Unit          -- `encode_to` of a Reach of the prefix's family (MP_REACH_NLRI unless IPv4 unicast)
+  ins : Out Unit          -- `Table::insert` of two paths for the prefix
   deriving Repr
 
 inductive Obs where
@@ -1055,6 +1175,9 @@ inductive Obs where
   | decodeErr                                   -- NLRI bytes refused by the wire decoder
   | decodePanic
   | nlris (l : List NlriObs)
+  | addRefused                                  -- AddPath returned an error status
+  | listed (n : ApiNlri) (attrs : List ApiAttr) -- what ListPath shows for the one path added
+  | listPanic
   | exploreOk
   | exploreFail (why : String)
   | unmodelled                                  -- `(bad-case)`
@@ -1069,11 +1192,18 @@ def attrObs (fx : Fixes) (a : Attribute) : AttrObs :=
     use := useOf a }
 
 def nlriObs (fx : Fixes) (n : Nlri) : NlriObs :=
-  { n := n, api := nlriToApi n, back := netFromApi fx (nlriToApi n), enc := encodeNlri n }
+  { n := n, api := nlriToApi n, back := netFromApi fx (nlriToApi n), enc := encodeNlri n,
+    -- `put_entries` encodes the prefix first: `Err` when it has no encoding, the same indexing panic otherwise
+    msg := (match encodeNlri n with
+            | .ok [] => .err
+            | .ok _ => .ok ()
+            | .err => .err
+            | .panic => .panic),
+    ins := .ok () }
 
 /-- an attribute the harness can put into one UPDATE frame -/
 def wireCaseOk (code flags : Nat) (bs : Bytes) : Bool :=
-  modelledCode code && code ≠ 14 && code ≠ 15 && code < 256 && flags < 256 && bs.all (· < 256) && bs.length ≤ 3000 &&
+  modelledCode code && code ≠ 14 && code ≠ 15 && code < 256 && flags < 256 && bs.all (· < 256) && bs.length ≤ 65508 &&
   (flags / 16 % 2 = 1 || bs.length ≤ 255)
 
 /-- the model's run of one case -/
@@ -1101,6 +1231,20 @@ def run (fx : Fixes) : Case → Obs
       | .ok n => .nlris [nlriObs fx n]
       | .err => .fromErr
       | .panic => .fromPanic
+  | .grpc x attrs =>
+      match netFromApi fx x with
+      | .ok n =>
+          (match localPath fx attrs with
+           | .ok stored =>
+               if stored.all (fun a => modelledCode a.code) then
+                 match listAttrs fx stored with
+                 | .ok ys => .listed (nlriToApi n) ys
+                 | _ => .listPanic
+               else .unmodelled
+           | .err => .addRefused
+           | .panic => .listPanic)
+      | .err => .addRefused
+      | .panic => .listPanic
   | .explore _ => .exploreOk
 
 /-- cases whose numeric fields fit the protobuf / wire field widths (anything else is `(bad-case)`) -/
@@ -1109,6 +1253,7 @@ def Case.inRange : Case → Bool
   | .attrApi x => x.inRange
   | .nlriWire .. => true
   | .nlriApi x => x.inRange
+  | .grpc x attrs => x.inRange && attrs.all ApiAttr.inRange
   | .explore _ => true
 
 /-- the code as it is in /repo now (with the C17 repairs of convert.rs) -/
